@@ -201,18 +201,31 @@ func gen(seed uint64, tier string) {
 
 // ------------------------------------------------------------------ execution
 
-func parseOpts(toks []string) ([]middleware.RequestIDOption, []string) {
+func parseOpts(variant string, toks []string) ([]middleware.RequestIDOption, []string) {
 	n, _ := strconv.Atoi(toks[0])
 	var opts []middleware.RequestIDOption
+	// the options are built with the constructors of the transport's own middleware package: those are what a service calls
 	for _, t := range toks[1 : 1+n] {
 		switch t[0] {
 		case 'U':
-			opts = append(opts, middleware.UseRequestIDOption(t[1] == '1'))
+			if variant == "http" {
+				opts = append(opts, httpmw.UseXRequestIDHeaderOption(t[1] == '1'))
+			} else {
+				opts = append(opts, grpcmw.UseXRequestIDMetadataOption(t[1] == '1'))
+			}
 		case 'H':
-			opts = append(opts, middleware.RequestIDHeaderOption(lp.MustDec(t[1:])))
+			if variant == "http" {
+				opts = append(opts, httpmw.RequestIDHeaderOption(lp.MustDec(t[1:])))
+			} else {
+				opts = append(opts, middleware.RequestIDHeaderOption(lp.MustDec(t[1:])))
+			}
 		case 'L':
 			l, _ := strconv.Atoi(t[1:])
-			opts = append(opts, middleware.RequestIDLimitOption(l))
+			if variant == "http" {
+				opts = append(opts, httpmw.XRequestHeaderLimitOption(l))
+			} else {
+				opts = append(opts, grpcmw.XRequestMetadataLimitOption(l))
+			}
 		}
 	}
 	return opts, toks[1+n:]
@@ -229,7 +242,7 @@ func run(toks []string) string {
 	switch toks[0] {
 	case "rid":
 		variant := toks[1]
-		opts, rest := parseOpts(toks[3:])
+		opts, rest := parseOpts(variant, toks[3:])
 		ctx := context.Background()
 		var inbound []string
 		if rest[0] != "~" {
